@@ -124,6 +124,9 @@ def run(chk):
     if not proved and not found:
         where, pout = getattr(chk, "proof_error", ("?", ""))
         chk.broken("proof obligation Properties/C09.v no longer checks (%s)" % where, pout)
+    # DTLS 1.3 record layer: model Rec/Rec13.v, theorems Properties/C09rec13.v, correspondence legs
+    import rec13lib
+    rec13lib.run_c09(chk)
     chk.finish(
         level="proof",
         rule="whole DTLS 1.2 sessions in a synctest bubble: each of the first datagrams dropped once (retransmission of every "
